@@ -49,14 +49,16 @@ Definition member_of (root : path) (pats : list pat) (f : path) : bool :=
 (* args.excludes (from -x, in order) += analysis_toml["codebase"]["exclude"]; how the two lists
    are combined in __main__._main is read from the source (Gen/C08_tables.v); Props/C10.v
    also checks that tree._tree does the same *)
-Definition effective_for (m : exclude_mode) (xs ts : list pat) : list pat :=
+Definition effective_for {A} (m : exclude_mode) (xs ts : list A) : list A :=
   match m with XThenToml => xs ++ ts | TomlOnly => ts end.
-Definition effective (xs ts : list pat) : list pat := effective_for excludes_main xs ts.
+Definition effective {A} (xs ts : list A) : list A := effective_for excludes_main xs ts.
 
-(* one whole analysis as the CLIs run it *)
-Definition analyse (fs : fsys) (fuel : nat) (root : path) (xs ts : list pat) (w : nodeid -> nat) (cfg : config)
-  : res (amap * setmap) :=
-  let member := member_of root (effective xs ts) in
+(* ---------- one whole analysis as the CLIs run it, for ANY membership predicate ----------
+   [member] is `fn in codebase` (CodeBase.__contains__ for the code base built from the root
+   and the effective pattern list): the analysis uses it in exactly two places. *)
+Section AnyMembership.
+Variable member : path -> bool.
+Definition analyse_m (fs : fsys) (fuel : nat) (w : nodeid -> nat) (cfg : config) : res (amap * setmap) :=
   match find_cb fs fuel member cfg with
   | Ok am => Ok (am, setmap_M (names_of cfg) w member am fs)
   | Err x => Err x
@@ -65,16 +67,27 @@ Definition analyse (fs : fsys) (fuel : nat) (root : path) (xs ts : list pat) (w 
 (* the mutant C10 is about: files that are not members are neither parsed nor
    associated (an excluded / out-of-tree header is "not found", a compiled
    non-member is skipped) *)
-Definition drop_nonmembers (member : path -> bool) (fs : fsys) : fsys := filter (fun fl => member (fst fl)) fs.
-Definition drop_entries (member : path -> bool) (cfg : config) : config :=
+Definition drop_nonmembers (fs : fsys) : fsys := filter (fun fl => member (fst fl)) fs.
+Definition drop_entries (cfg : config) : config :=
   map (fun ne => (fst ne, filter (fun e => member (e_file e)) (snd ne))) cfg.
-Definition analyse_skipping (fs : fsys) (fuel : nat) (root : path) (xs ts : list pat) (w : nodeid -> nat) (cfg : config)
-  : res (amap * setmap) :=
-  let member := member_of root (effective xs ts) in
-  match find_cb (drop_nonmembers member fs) fuel member (drop_entries member cfg) with
+Definition analyse_skipping_m (fs : fsys) (fuel : nat) (w : nodeid -> nat) (cfg : config) : res (amap * setmap) :=
+  match find_cb (drop_nonmembers fs) fuel member (drop_entries cfg) with
   | Ok am => Ok (am, setmap_M (names_of cfg) w member am fs)
   | Err x => Err x
   end.
+End AnyMembership.
+
+(* the CLI for a matcher given as a function of the pattern list: -x patterns and the
+   analysis file's patterns are combined by [effective] and nothing else *)
+Definition analyse_cli {X} (member : list X -> path -> bool) (fs : fsys) (fuel : nat) (xs ts : list X)
+    (w : nodeid -> nat) (cfg : config) : res (amap * setmap) :=
+  analyse_m (member (effective xs ts)) fs fuel w cfg.
+
+(* the four-shape matcher of this file *)
+Definition analyse (fs : fsys) (fuel : nat) (root : path) (xs ts : list pat) (w : nodeid -> nat) (cfg : config)
+  : res (amap * setmap) := analyse_cli (member_of root) fs fuel xs ts w cfg.
+Definition analyse_skipping (fs : fsys) (fuel : nat) (root : path) (xs ts : list pat) (w : nodeid -> nat) (cfg : config)
+  : res (amap * setmap) := analyse_skipping_m (member_of root (effective xs ts)) fs fuel w cfg.
 
 (* number of lines of member files whose platform set is [k]: the yardstick for a setmap row *)
 Section Count.
